@@ -16,6 +16,7 @@ package limits
 
 import (
 	"errors"
+	"math"
 	"sort"
 	"strconv"
 	"strings"
@@ -177,6 +178,10 @@ func parseSize(sizeStr string) int64 {
 		if strings.HasSuffix(sizeStr, unit.symbol) {
 			size, err := strconv.ParseInt(sizeStr[0:len(sizeStr)-len(unit.symbol)], 10, 64)
 			if err != nil {
+				return -1
+			}
+			if size > 0 && size > math.MaxInt64/unit.multiplier {
+				// (the product would wrap around and be enforced as some small size)
 				return -1
 			}
 			return size * unit.multiplier
